@@ -113,6 +113,9 @@ def run_impl(cp, met, through_drivers=False):
             out.append([-999])
         except Exception:
             out.append([-997])
+    # a forcing derived from an EARLIER configuration object with dataclasses.replace (the package's own sweep idiom)
+    # or by assigning the fields in place is the same forcing: same step count, same steps
+    out += derived_disagreements(cfg, out)
     if through_drivers:
         import bldfm.interface as itf
 
@@ -143,6 +146,52 @@ def run_impl(cp, met, through_drivers=False):
         if cli_steps(raw, cfg) != [(cfg.towers[0].name, i) for i in range(n)]:
             out.append([-994])
     return out
+
+
+_PREV = []
+MET_FIELDS = ["ustar", "mol", "wind_speed", "wind_dir", "z0", "timestamps"]
+
+
+def _steps_of(met):
+    n = met.n_timesteps
+    res = []
+    for i in range(n):
+        try:
+            res.append(enc_step(met.get_step(i)))
+        except IndexError:
+            res.append([-999])
+        except Exception:
+            res.append([-997])
+    return res
+
+
+def derived_disagreements(cfg, out):
+    import copy
+    import dataclasses
+
+    extra = []
+    vals = {k: copy.deepcopy(getattr(cfg.met, k)) for k in MET_FIELDS if hasattr(cfg.met, k)}
+    if _PREV:
+        prev = _PREV[0]
+        _ = prev.met.n_timesteps  # any run or log line reads it
+        try:
+            met2 = dataclasses.replace(prev.met, **vals)
+            cfg2 = dataclasses.replace(prev, met=met2)
+            if _steps_of(cfg2.met) != out:
+                extra.append([-993])
+        except Exception:
+            extra.append([-992])
+        try:
+            met3 = copy.deepcopy(prev.met)
+            _ = met3.n_timesteps
+            for k, v in vals.items():
+                setattr(met3, k, copy.deepcopy(v))
+            if _steps_of(met3) != out:
+                extra.append([-991])
+        except Exception:
+            extra.append([-990])
+    _PREV[:] = [cfg]
+    return extra
 
 
 def cli_steps(raw, cfg):
@@ -306,6 +355,12 @@ def spec_outcome(met):
 def classify(met, got, want):
     fields = [met.get("ustar"), met["mol"], met["wind_speed"], met["wind_dir"]]
     lists = [isinstance(f, list) for f in fields]
+    if got is not None:
+        for code, name in ((-993, "derived:dataclasses.replace-of-an-earlier-config-differs-from-a-fresh-one"), (-992, "derived:dataclasses.replace-raises"),
+                           (-991, "derived:fields-assigned-in-place-differ-from-a-fresh-config"), (-990, "derived:assignment-raises"),
+                           (-995, "drivers:i-th-result-is-not-the-i-th-step"), (-996, "drivers:raise"), (-994, "cli:step-order")):
+            if [code] in got:
+                return name
     if want is not None and got is not None and len(got) != len(want):
         if not lists[0] and not lists[2] and any(lists):
             return "n_timesteps:list-only-in-mol-or-wind_dir"
@@ -323,6 +378,7 @@ def oracle(ctx, hints):
     cp = _impl()
     found = {}
     pool = [h["met"] for h in hints if h and "met" in h] + [build_case(c) for c in space(ctx)]
+    last = None
     for met in pool:
         got = run_impl(cp, met, through_drivers=True)
         want = spec_outcome(met)
@@ -330,15 +386,20 @@ def oracle(ctx, hints):
             sig = classify(met, got, want)
             size = sum(len(v) if isinstance(v, list) else 1 for v in met.values())
             if sig not in found or size < found[sig][0]:
-                found[sig] = (size, met, got, want)
-    return [{"signature": sig, "what": "MetConfig %s: met=%r gives %r, the property demands %r" % (sig, met, got, want),
-             "replay": {"met": met, "impl": got, "spec": want, "how": "bldfm.config_parser.parse_config_dict({'domain':..,'towers':..,'met': met}) then n_timesteps/get_step"}}
-            for sig, (size, met, got, want) in found.items()]
+                found[sig] = (size, met, got, want, last if sig.startswith("derived:") else None)
+        if got is not None:
+            last = met
+    return [{"signature": sig, "what": "MetConfig %s: met=%r%s gives %r, the property demands %r" % (sig, met, (" (derived from a configuration object built for met=%r whose n_timesteps had been read)" % prev) if prev else "", got, want),
+             "replay": {"met": met, "previous_met": prev, "impl": got, "spec": want, "how": "bldfm.config_parser.parse_config_dict({'domain':..,'towers':..,'met': met}) then n_timesteps/get_step; codes -993/-991: the same forcing obtained from the previous configuration object by dataclasses.replace / by assigning the fields differs"}}
+            for sig, (size, met, got, want, prev) in found.items()]
 
 
 def replay(body):
     cp = _impl()
     met = body["met"]
+    _PREV[:] = []
+    if body.get("previous_met"):
+        run_impl(cp, body["previous_met"])
     got = run_impl(cp, met, through_drivers=True)
     want = spec_outcome(met)
     print("met      =", met)
